@@ -921,8 +921,11 @@ fn reference(supported: bool, matching: &[(bool, Option<String>, String)], store
     let excepted: BTreeSet<String> = matching.iter().filter(|m| m.0).filter_map(|m| m.1.as_ref()).map(|s| spec_split(s).0).collect();
     let cands: Vec<(String, i64)> = matching.iter().filter(|m| !m.0).filter_map(|m| m.1.as_ref()).map(|s| spec_split(s)).filter(|(n, _)| !excepted.contains(n)).collect();
     let Some(max) = cands.iter().map(|c| c.1).max() else { return vec![None] };
+    // among equal priorities the resource name that sorts first (bytewise) wins (since /repo 8ebf406
+    // the choice is a function of the SET of matching rules; before, any member of the arg-max set
+    // was acceptable and the comparisons below exempted ties)
     let names: BTreeSet<&String> = cands.iter().filter(|c| c.1 == max).map(|c| &c.0).collect();
-    names.into_iter().map(|n| spec_gate(store, n)).collect()
+    names.into_iter().take(1).map(|n| spec_gate(store, n)).collect()
 }
 
 /// runs the oracle; returns (class, message) of a failure
